@@ -335,50 +335,39 @@ def operands_and_offset(ctx, rule_p='K7', rule_x='K8'):
                     ctx.inst(rule_x, '%s#offset-%s' % (fn, fld), oksx, 'image %s coordinate uses the cel offset via %s; must be a sign-extending '
                              'i16 -> i32 cast of cel.%s' % (fld, [(x[2], x[3]) for x in cs] or 'nothing', fld), c.span,
                              key=ctx.key(fn, rule_x, 'offset', fld))
-                    coord = strip_casts(ax)
-                    lo = hi = False
-                    for cond, vals, a in q.guards(b, c.bb):
-                        truth = q.bool_outcome(b, a, vals)
-                        if cond[0] == 'bin' and strip_casts(cond[2]) == coord:
-                            if cond[1] == 'Lt' and q.const_val(cond[3]) == 0 and truth is False:
-                                lo = True
-                            if cond[1] == 'Ge' and q.const_val(cond[3]) == 0 and truth is True:
-                                lo = True
-                            dims = [x for x in walk(cond[3]) if x[0] == 'call' and x[1].startswith('image::ImageBuffer::') and is_param(x[2][0], img)]
-                            if dims and ((cond[1] == 'Ge' and truth is False) or (cond[1] == 'Lt' and truth is True)):
-                                dn = dims[0][1].split('::')[-1]
-                                hi = dn == dimk[0] or (dn == 'dimensions' and any(x[0] == 'field' and x[2] == dimk[1] for x in walk(cond[3])))
-                        if cond[0] == 'call' and cond[1] == 'std::ops::Range::contains' and truth is True and strip_casts(cond[2][1]) == coord:
-                            rg = cond[2][0]
-                            if rg[0] == 'agg':
-                                f = dict(rg[3])
-                                lo = lo or q.const_val(f['start']) == 0
-                                dims = [x for x in walk(f['end']) if x[0] == 'call' and x[1] == 'image::ImageBuffer::' + dimk[0] and is_param(x[2][0], img)]
-                                hi = hi or bool(dims)
-                    if not (lo and hi):
-                        rl, rh = clipped_by_range(ax, dimk, img)
-                        lo, hi = lo or rl, hi or rh
-                    if not (lo and hi) and clipped_by_clamped_span(ax, dimk, img):
-                        lo = hi = True
+                    lo, hi = clip_bounds(b, c.bb, ax, dimk, img)
                     ctx.inst(rule_x, '%s#clip-%s' % (fn, fld), lo and hi, 'pixel access is guarded by 0 <= %s (%s) and %s < image %s (%s)'
                              % (fld, lo, fld, dimk[0], hi), c.span, key=ctx.key(fn, rule_x, 'clip', fld))
 
 
 def clip_guarded(b, bb, coord, axis_dims, img):
     """is the pixel access in block bb guarded by 0 <= coord and coord < image dimension (width|height, or dimensions().N)?"""
+    lo, hi = clip_bounds(b, bb, coord, axis_dims, img)
+    return lo and hi
+
+
+def clip_bounds(b, bb, coord, axis_dims, img):
+    """-> (lower bound 0 <= coord established, upper bound coord < image dimension established) at block bb"""
     lo = hi = False
     coord = strip_casts(coord)
+
+    def is_dim(t):
+        dims = [x for x in walk(t) if x[0] == 'call' and x[1].startswith('image::ImageBuffer::') and is_param(x[2][0], img)]
+        if not dims:
+            return False
+        dn = dims[0][1].split('::')[-1]
+        return dn == axis_dims[0] or (dn == 'dimensions' and any(x[0] == 'field' and x[2] == axis_dims[1] for x in walk(t)))
+    # every comparison known on the way to bb, in any spelling (mirrored, negated, `!(a && b)`, a bool local built with && / ||)
+    for op, l, r_ in q.deep_facts(b, bb):
+        if l != coord:
+            continue
+        k = q.const_val(r_)
+        if (op == 'Ge' and isinstance(k, int) and k >= 0) or (op == 'Gt' and isinstance(k, int) and k >= -1):
+            lo = True
+        if op == 'Lt' and is_dim(r_):
+            hi = True
     for cond, vals, a in q.guards(b, bb):
         truth = q.bool_outcome(b, a, vals)
-        if cond[0] == 'bin' and strip_casts(cond[2]) == coord:
-            if cond[1] == 'Lt' and q.const_val(cond[3]) == 0 and truth is False:
-                lo = True
-            if cond[1] == 'Ge' and q.const_val(cond[3]) == 0 and truth is True:
-                lo = True
-            dims = [x for x in walk(cond[3]) if x[0] == 'call' and x[1].startswith('image::ImageBuffer::') and is_param(x[2][0], img)]
-            if dims and ((cond[1] == 'Ge' and truth is False) or (cond[1] == 'Lt' and truth is True)):
-                dn = dims[0][1].split('::')[-1]
-                hi = dn == axis_dims[0] or (dn == 'dimensions' and any(x[0] == 'field' and x[2] == axis_dims[1] for x in walk(cond[3])))
         if cond[0] == 'call' and cond[1] == 'std::ops::Range::contains' and truth is True and strip_casts(cond[2][1]) == coord:
             rg = cond[2][0]
             if rg[0] == 'agg':
@@ -391,7 +380,7 @@ def clip_guarded(b, bb, coord, axis_dims, img):
         lo, hi = lo or rl, hi or rh
     if not (lo and hi) and clipped_by_clamped_span(coord, axis_dims, img):
         lo = hi = True
-    return lo and hi
+    return lo, hi
 
 
 def clipped_by_range(coord, axis_dims, img):
@@ -610,7 +599,10 @@ def no_extra_skips(ctx, rule='K8'):
                     return True
                 if cond[0] == 'call' and cond[1] == 'std::ops::Range::contains' and P.poly(cond[2][1]) in cps:
                     return True
-                # a materialised bool (`a && b`, `x_in_bounds`): recognised if every constituent test is
+                # a materialised bool (`let x_in_bounds = a >= 0 && a < w`): recognised if every constituent test is
+                if cond[0] == 'any' and all((x[0] == 'const') or (x[0] == 'bin' and (P.poly(x[2]) in cps or P.poly(x[3]) in cps)) or
+                                            (x[0] == 'call' and x[1] == 'std::ops::Range::contains' and P.poly(x[2][1]) in cps) for x in alts(cond)):
+                    return True
                 for truth in (True, False):
                     if _safe_cull(b, img, cond, truth, coords):
                         return True
